@@ -252,6 +252,16 @@ pub fn value_candidates(v: &Value) -> Vec<Value> {
     let mut out = Vec::new();
     match v {
         Value::Null => {}
+        Value::Array(a) if a.len() > 24 => {
+            // large collections: halves and a short prefix first; never one candidate per element
+            out.push(Value::Null);
+            out.push(Value::Array(a[..a.len() / 2].to_vec()));
+            out.push(Value::Array(a[a.len() / 2..].to_vec()));
+            out.push(Value::Array(a[..8].to_vec()));
+            for x in a.iter().take(3) {
+                out.push(x.clone());
+            }
+        }
         Value::Array(a) => {
             out.push(Value::Null);
             for x in a {
@@ -269,6 +279,21 @@ pub fn value_candidates(v: &Value) -> Vec<Value> {
                     out.push(Value::Array(b));
                 }
             }
+        }
+        Value::Object(m) if m.len() > 24 => {
+            out.push(Value::Null);
+            let keys: Vec<&String> = m.keys().collect();
+            let mut first = serde_json::Map::new();
+            let mut second = serde_json::Map::new();
+            for (i, k) in keys.iter().enumerate() {
+                if i < keys.len() / 2 {
+                    first.insert((*k).clone(), m[*k].clone());
+                } else {
+                    second.insert((*k).clone(), m[*k].clone());
+                }
+            }
+            out.push(Value::Object(first));
+            out.push(Value::Object(second));
         }
         Value::Object(m) => {
             out.push(Value::Null);
